@@ -457,21 +457,21 @@ class SctpWorld:
         for side in "AB":
             s = self.sctp[side]
             h.update(struct.pack(
-                "!iIIIIiiii??",
+                "!iqqqqqqqq??",
                 s._association_state.value,
                 s._local_tsn, (s._last_received_tsn or 0), s._last_sacked_tsn,
                 s._advanced_peer_ack_tsn,
                 s._flight_size, s._cwnd, len(s._outbound_queue), len(s._data_channel_queue),
                 s._fast_recovery_exit is not None, s._forward_tsn_chunk is not None))
             for c in s._sent_queue:
-                h.update(struct.pack("!I??i", c.tsn, c._acked, c._abandoned, c._sent_count * 4 + c._misses))
+                h.update(struct.pack("!q??q", c.tsn, c._acked, c._abandoned, c._sent_count * 4 + c._misses))
                 h.update(b"r" if c._retransmit else b"n")
             h.update(repr(sorted(s._sack_misordered)).encode())
             for sid in sorted(s._inbound_streams):
                 st = s._inbound_streams[sid]
-                h.update(struct.pack("!HHH", sid, st.sequence_number, len(st.reassembly)))
+                h.update(struct.pack("!qqq", sid, st.sequence_number, len(st.reassembly)))
                 for c in st.reassembly:
-                    h.update(struct.pack("!I", c.tsn))
+                    h.update(struct.pack("!q", c.tsn))
             for th in (s._t1_handle, s._t2_handle, s._t3_handle):
                 h.update(struct.pack("!d", round(th._when - now, 6) if th is not None else -1.0))
             h.update(struct.pack("!d", s._rto))
